@@ -679,6 +679,11 @@ class Data(Field):
                     except Exception as e:
                         byte_count = None
 
+                if not isinstance(byte_count, int):
+                    # the size depends on a field that is Any (or that
+                    # cannot be computed): it is unknown
+                    byte_count = None
+
                 if byte_count is not None:
                     # TODO ignoring the custom regexp!!
                     fragments.append(
